@@ -98,7 +98,7 @@ CLASSES = ["ctor/" + ctor_name(p, q) for p, q in CTORS] + \
            for k in ("cart", "mass", "classical", "pal")] + \
           ["evolve/%s/o1/%s" % (i, k) for i in ("whfast", "leapfrog") for k in ("cart", "classical", "pal")] + \
           ["evolve/testparticle/o1", "evolve/testparticle/o2", "evolve/star_varied", "evolve/two_particles",
-           "rescale/triggered/ias15", "rescale/triggered/whfast", "rescale/triggered/bs",
+           "rescale/triggered/ias15", "rescale/triggered/whfast", "rescale/triggered/leapfrog",
            "megno/whfast", "megno/ias15"]
 
 # ---------------------------------------------------------------------------------------------------------
@@ -255,6 +255,15 @@ K_RND_CTOR = 64.0       # slack on the round-off term of the difference quotient
 STEP1, STEP2 = 2e-3, 4e-3
 
 
+def pal_solver_finding(ctx, e):
+    """Known finding 'pal-kepler-newton' (while open): reb_tools_solve_kepler_pal is inaccurate for 0.15<=e<0.3,
+    which makes reb_particle_from_pal and the Pal constructors wrong at the 1e-13..1e-4 level."""
+    if 0.15 <= e < 0.3 and ctx.finding_open("pal-kepler-newton"):
+        ctx.excluded("pal-kepler-newton")
+        return True
+    return False
+
+
 def run_ctor(case, ctx):
     L = lib()
     G = case["G"]
@@ -290,6 +299,8 @@ def run_ctor(case, ctx):
         el = els[fam]
         e = ecc_of(el, fam)
         name = ctor_name(p, q)
+        if fam == "pal" and pal_solver_finding(ctx, e):
+            continue
         A = pvec(L["d_" + name](G, prim, po))
 
         def at(shifts):
@@ -643,6 +654,14 @@ def run_evolve(case, ctx):
             q0 = case["q"]
             fams[case["j2"]] = family_of(q0 if q0 != "mc" else "m")
 
+    for jj, fam in fams.items():
+        pars = [p] if jj == j else []
+        if order == 2 and case["j2"] == jj:
+            pars.append(case["q"])
+        if jj > 0 and fam == "pal" and any(kind_of(x) in ("pal", "mass") and x != "mc" for x in pars):
+            if pal_solver_finding(ctx, sysd["planets"][jj - 1]["e"]):
+                return
+
     def shadow_real(shifts):
         s = make_sim(base, base.state(shifts, fams), case)
         configure(s, base, case, shadow=True)
@@ -801,16 +820,22 @@ def rescale_case(draw):
     j = draw(st.integers(0, n - 1))
     al = [x for x in allowed_params(sysd, j, False)]
     p = draw(st.sampled_from(al))
-    integ = draw(st.sampled_from(["ias15", "whfast", "whfast", "bs"]))
+    # BS is left out: its absolute tolerance (eps_abs) cannot be met by the exactly-zero components of a
+    # variation whose other components are ~1e98 (round-off 1e82), the step size collapses - a tolerance
+    # semantics question, not a rescaling one (BS re-reads the particles every step: no carried state).
+    integ = draw(st.sampled_from(["ias15", "ias15", "whfast", "whfast", "leapfrog"]))
     case = {"system": sysd, "integrator": integ, "j": j, "p": p, "order": 1, "testparticle": False,
-            "log10amp": draw(S.floats(97.0, 99.9)), "norbits": draw(S.floats(1.0, 4.0))}
+            "log10amp": draw(S.floats(99.3, 99.97)), "norbits": draw(S.floats(1.0, 4.0))}
     if integ == "whfast":
         case["dtfrac"] = draw(st.sampled_from([0.01, 0.02, 0.037]))
-        case["safe_mode"] = 1
+        case["safe_mode"] = draw(st.sampled_from([1, 1, 0]))
         case["corrector"] = 0
-    if integ == "bs":
-        case["bs_eps"] = 1e-12
+    if integ == "leapfrog":
+        case["dtfrac"] = draw(st.sampled_from([0.0025, 0.005]))
     return case
+
+
+K_RESCALE = 2.0 ** 15      # measured: error <= 1.1e3 eps |variation| (round-off of two differently scaled runs)
 
 
 def run_rescale(case, ctx):
@@ -820,7 +845,6 @@ def run_rescale(case, ctx):
     integ = case["integrator"]
     j, p = case["j"], case["p"]
     nreal = base.n
-    amp = 10.0 ** case["log10amp"]
     mass_var = kind_of(p) == "mass"
     if mass_var and integ == "whfast":
         if ctx.finding_open("whfast-mass-variation"):
@@ -829,6 +853,22 @@ def run_rescale(case, ctx):
     if mass_var and ctx.finding_open("rescale-mass-variation"):
         ctx.excluded("rescale-mass-variation")
         return
+    if integ == "ias15" and ctx.finding_open("rescale-ias15-state"):
+        ctx.excluded("rescale-ias15-state")
+        return
+    if j > 0 and p not in CART and p != "mc" and family_of(p) == "pal":
+        if pal_solver_finding(ctx, case["system"]["planets"][j - 1]["e"]):
+            return
+
+    # amplitude: the largest initial coordinate of the variation is 10^log10amp (a pure mass variation starts
+    # with zero coordinates: then the mass variation itself is 10^log10amp)
+    s0 = make_sim(base, base.parts, case)
+    v0 = s0.add_variation()
+    set_variation(s0, v0, j, p, base.prim, 1.0)
+    c0 = max(abs(x) for r in var_state(s0, v0, nreal) for x in r)
+    amp = 10.0 ** case["log10amp"] / (c0 if c0 > 0 else 1.0)
+    lamp = math.log(amp)
+    del s0, v0
 
     def run(amplitude, disable):
         s = make_sim(base, base.parts, case)
@@ -859,11 +899,15 @@ def run_rescale(case, ctx):
     else:
         ctx.cls("triggered/" + integ)
         ctx.nontrivial()
-        fac = math.exp(lr - case["log10amp"] * math.log(10.0))
+        if not (abs(lr - lamp) < 600.0):
+            raise Violation("%s: variation d/d%s[%d] started at amplitude e^%.2f: recorded lrescale=%.3f puts the variation "
+                            "e^%.1f away from the amplitude-1 variation (|variation| there: %.3e)"
+                            % (integ, p, j, lamp, lr, lr - lamp, snorm(A, base)), lrescale=lr)
+        fac = math.exp(lr - lamp)
     Bs = [[x * fac for x in r] for r in B]
     err = snorm([[Bs[i][k] - A[i][k] for k in range(6)] for i in range(nreal)], base)
     R = snorm(A, base)
-    tol = 1e-10 * R
+    tol = K_RESCALE * EPS * R
     ctx.stat_max("err/tol[%s]" % integ, err / tol if tol > 0 else 0.0)
     if not (err <= tol):
         raise Violation("%s: variation d/d%s[%d] started at amplitude 1e%.2f, rescaled (lrescale=%.6f): coordinates * "
@@ -917,10 +961,10 @@ def run_megno(case, ctx):
     ctx.nontrivial()
     ctx.stat_max("|megno-2|", abs(Y - 2.0))
     ctx.stat_max("|lyapunov|*P", abs(lyap) * P)
-    if not (1.8 <= Y <= 2.2):
+    if not (1.85 <= Y <= 2.15):
         raise Violation("MEGNO = %r after %d orbits of a regular low-e two-planet system (%s), expected -> 2"
                         % (Y, case["norbits"], case["integrator"]))
-    if not (abs(lyap) * P < 1e-2):
+    if not (abs(lyap) * P < 2e-3):
         raise Violation("Lyapunov estimate * P = %r after %d orbits of a regular system, expected -> 0"
                         % (lyap * P, case["norbits"]))
 
